@@ -16,7 +16,9 @@ children — including the bytes below null slots) are equal.
   hidden_slots_depend             … and the erased parts DO depend on the presentation (witnesses, `decide`).
   runRows_presentation_physical   the same for whole batches.
   C11_presentations_physical      `to_marrow` of two presentations of one logical batch returns the SAME arrays.
-  items_arrays_physical           `Items(vs)` = the batch of one-field records named `item`, at array level, physically.
+  C11_histories_physical          the same for every build of two `ArrayBuilder` histories (through C10).
+  items_arrays_physical           `Items(vs)` = the batch of one-field records named `item`, at array level, physically
+                                  (`items_as_records_physical`, `items_as_maps_physical`).
 
 Family by family (`Lemmas/C11PhysScalar.lean`, `C11PhysSeq.lean`, `C11PhysStruct.lean`, `C11PhysPush.lean`): leaf kinds
 (the stored integer is a function of the logical value), strings / binaries / views (bytes and offsets), fixed-size
@@ -133,6 +135,36 @@ theorem C11_presentations_physical (ext : Ext) (fields : List Field) (rows1 rows
       (runRows_presentation_physical ext fields rows1 rows2 root0 r1 r2 hcov h0 (hsafe root0 h0) hraw1 hraw2 hsame hr1 hr2)
       a1 a2 ha1 ha2
 
+/-- **C11 along histories, physical.**  Two histories (push / extend / `Serializer` / build, any chunking of the rows
+within a batch) on builders of the same schema whose batches are, batch by batch and record by record, the same logical
+rows in whatever presentation: every build of the one returns the SAME arrays as the corresponding build of the
+other.  (Each build returns physically the arrays of the one-shot conversion of its batch: `C10.run_oneShot`.) -/
+theorem C11_histories_physical (ext : Ext) (fields : List Field) (r0 : B) (h0 : newRoot fields = .ok r0)
+    (hcov : fields.all Build.coveredF = true) (hsafe : Safe r0)
+    (ops ops' : List C10.Op) (hraw : C10.OpsOK (fun x => noRaw x = true) ops)
+    (hraw' : C10.OpsOK (fun x => noRaw x = true) ops')
+    (hsame : (C10.batchesFrom [] ops).map (·.map (interpRow ext fields)) =
+      (C10.batchesFrom [] ops').map (·.map (interpRow ext fields)))
+    (outs outs' : List (B × List Arr)) (fin fin' : B)
+    (h : C10.run ext r0 ops = .ok (outs, fin)) (h' : C10.run ext r0 ops' = .ok (outs', fin')) :
+    outs.map (·.2) = outs'.map (·.2) := by
+  obtain ⟨l1, g1⟩ := Props.C03.All2_get (C10.run_oneShot ext fields r0 h0 ops outs fin h).1
+  obtain ⟨l2, g2⟩ := Props.C03.All2_get (C10.run_oneShot ext fields r0 h0 ops' outs' fin' h').1
+  have hb : (C10.batchesFrom [] ops).length = (C10.batchesFrom [] ops').length := by
+    simpa using congrArg List.length hsame
+  apply List.ext_getElem (by simp only [List.length_map]; omega)
+  intro k hk1 hk2
+  simp only [List.length_map] at hk1 hk2
+  simp only [List.getElem_map]
+  have e := congrArg (fun l => l[k]?) hsame
+  simp only [List.getElem?_map, List.getElem?_eq_getElem (show k < (C10.batchesFrom [] ops).length by omega),
+    List.getElem?_eq_getElem (show k < (C10.batchesFrom [] ops').length by omega), Option.map_some,
+    Option.some.injEq] at e
+  exact C11_presentations_physical ext fields _ _ _ _ hcov (fun r hr => by rw [h0] at hr; cases hr; exact hsafe)
+    (C10.mem_batchesFrom (fun x => noRaw x = true) ops [] (by simp) hraw _ (List.getElem_mem (by omega)))
+    (C10.mem_batchesFrom (fun x => noRaw x = true) ops' [] (by simp) hraw' _ (List.getElem_mem (by omega)))
+    e (g1 k hk1 (by omega)).2 (g2 k hk2 (by omega)).2
+
 /-- **`Items(vs)` behaves exactly like a batch of one-field records named `item`** — physically: whatever `rows` are
 (records of any other struct type with the one field `item`, maps `{"item": v}`, …), as long as record by record they
 mean what `Item(v)` means (`items_same_as_records`, `items_same_as_maps`), `to_marrow` returns the same arrays for
@@ -244,6 +276,22 @@ example : (push {} exNested (.record "S" (.cons "k" 3 (.seq (.cons (.int .i8 1) 
     push {} exNested (.record "S" (.cons "k" 3 (.seq (.cons (.int .i8 1) (.cons (.int .i8 2) .nil))) .nil)) ≠
       push {} exNested (.map (.cons (.str "k") (.tuple (.cons (.int .i64 1) (.cons (.int .i64 2) .nil))) .nil)) := by
   refine ⟨by decide +kernel, by decide +kernel, by decide +kernel⟩
+
+/-- `C11_histories_physical`: a dictionary column and a nullable list column (`C10.exFields`); one history pushes the
+record as a map with the keys in the other order and the list as a tuple of `i64`, the other extends by a sequence
+holding the struct presentation — every hypothesis discharged, both histories succeed -/
+def exOpsP : List C10.Op :=
+  [.push (.map (.cons (.str "l") (.tuple (.cons (.int .i64 1) .nil)) (.cons (.str "d") (.some (.str "x")) .nil))), .build]
+def exOpsQ : List C10.Op := [.extend (.seq (.cons (C10.exRec "x" [1]) .nil)), .build]
+
+example : (∀ outs outs' fin fin', C10.run {} C10.exRoot0 exOpsP = .ok (outs, fin) → C10.run {} C10.exRoot0 exOpsQ = .ok (outs', fin') →
+      outs.map (·.2) = outs'.map (·.2)) ∧
+    (C10.run {} C10.exRoot0 exOpsP).isOk = true ∧ (C10.run {} C10.exRoot0 exOpsQ).isOk = true :=
+  ⟨fun outs outs' fin fin' h h' =>
+    C11_histories_physical {} C10.exFields C10.exRoot0 C10.exNew (by decide)
+      (by simp [C10.exRoot0, Safe, SafeL, B.isDict]) exOpsP exOpsQ (by unfold C10.OpsOK; decide) (by unfold C10.OpsOK; decide)
+      (by decide +kernel) outs outs' fin fin' h h',
+   by decide +kernel, by decide +kernel⟩
 
 /-- `Items([7u8, 9u8])` and the maps `{"item": 7}`, `{"item": 9}` against `[item: Int32]`: the same arrays -/
 example : ∀ arrs1 arrs2, toMarrow {} [.mk "item" .int32 false []] ([SVal.int .u8 7, .int .u8 9].map (serItem 0)) = .ok arrs1 →
